@@ -33,6 +33,7 @@ fn main() {
         "c05-replay" => c05::replay(rest),
         "c05-record" => c05::record(rest),
         "c05-udp" => c05::udp(rest),
+        "c05-long" => c05::long_stream(rest),
         "c06-replay" => c06::replay(rest),
         "c07-malformed" => c07::malformed(rest),
         "c07-garbage" => c07::garbage(rest),
@@ -41,6 +42,7 @@ fn main() {
         "c14-replay" => c14::replay(rest),
         "c12-record" => c12::record(rest),
         "c03-replay" => c12::c03_replay(rest),
+        "c12-long" => c12::long_session(rest),
         "c13-grammar" => c13::grammar(rest),
         "c13-local" => c13::local(rest),
         "c16-probe" => c16::run(rest),
